@@ -532,6 +532,8 @@ def run(ctx):
 
 
 SELFTEST = [
+    ('range-by-endpoints-in-reader', 'pyerrors/input/dobs.py', '    name, idx, mask, deltas = _import_array(rd)\n    return deltas, name, idx\n', '    name, idx, mask, deltas = _import_array(rd)\n    if len(idx) > 1:\n        idrange = range(idx[0], idx[-1] + 1, idx[1] - idx[0])\n        if len(idrange) == len(idx):\n            idx = idrange\n    return deltas, name, idx\n', 'C12-G2'),
+    ('benign-range-when-equal-in-reader', 'pyerrors/input/dobs.py', '    name, idx, mask, deltas = _import_array(rd)\n    return deltas, name, idx\n', '    name, idx, mask, deltas = _import_array(rd)\n    if len(idx) > 1:\n        idrange = range(idx[0], idx[-1] + 1, idx[1] - idx[0])\n        if list(idrange) == idx:\n            idx = idrange\n    return deltas, name, idx\n', 'BENIGN'),
     ('sample-row-le', 'pyerrors/input/dobs.py', '                        if o.idl[repname][counters[oi]] == ci:', '                        if o.idl[repname][counters[oi]] <= ci:', 'C12-D6'),
     ('covobs-pruned-by-sum', 'pyerrors/input/dobs.py', "            if np.all(new_covobs[name].grad == 0):", "            if np.sum(new_covobs[name].grad) == 0:", 'C12-D7'),
     ('benign-covobs-pruned-not-any', 'pyerrors/input/dobs.py', "            if np.all(new_covobs[name].grad == 0):", "            if not np.any(new_covobs[name].grad != 0):", 'BENIGN'),
